@@ -119,10 +119,16 @@ def execute(stim):
             b = stim['blocks'][i - 1]
             if not b['s']:
                 continue
+            kw = {}
+            if b.get('bad'):
+                # an output event that fails in a non-fatal way (unknown event type): the error
+                # is reported to the sender of the external event, the simulation continues
+                kw['on_output'] = edzed.Event(stim['blocks'][b['bad'] - 1]['name'], 'nosuchevent',
+                                               efilter=edzed.not_from_undef)
             if b.get('src') == 'counter':
-                blks[i] = edzed.Counter(b['name'], initdef=b['init'])
+                blks[i] = edzed.Counter(b['name'], initdef=b['init'], **kw)
             else:
-                blks[i] = edzed.Input(b['name'], initdef=b['init'])
+                blks[i] = edzed.Input(b['name'], initdef=b['init'], **kw)
         for i in order:
             b = stim['blocks'][i - 1]
             if b['s']:
@@ -208,6 +214,10 @@ def execute(stim):
                         edzed.ExtEvent(blk).send(val)
                     else:
                         edzed.ExtEvent(blk, etype).send()
+                except edzed.EdzedUnknownEvent as err:
+                    if not stim['blocks'][s - 1].get('bad'):
+                        log.append({'ev': 'send_failed', 'what': repr(err)[:200]})
+                        return
                 except edzed.EdzedError as err:
                     log.append({'ev': 'send_failed', 'what': repr(err)[:200]})
                     return
